@@ -33,6 +33,23 @@ impl<P> State<P> {
 }
 
 impl<P> State<P> {
+    // mirror of `StateRegistry::set_value::<T>` (not used by the pinned bodies; present so that changed code which resets a
+    // value state is DECIDED against the contracts instead of being rejected as unsupported)
+    #[verifier::external_body]
+    pub fn set_value<T: ValueState>(&mut self, value: T::Target) -> (r: Option<T::Target>)
+        ensures
+            has_value::<P, T>(*old(self)) ==> r == Some(value_of::<P, T>(*old(self))) && *final(self) == with_value::<P, T>(*old(self), value),
+            !has_value::<P, T>(*old(self)) ==> r is None && *final(self) == *old(self),
+    { unimplemented!() }
+    // mirror of `StateRegistry::get_value::<T>` (panicking accessor: requires presence)
+    #[verifier::external_body]
+    pub fn get_value<T: ValueState>(&self) -> (r: T::Target)
+        requires has_value::<P, T>(*self),
+        ensures r == value_of::<P, T>(*self),
+    { unimplemented!() }
+}
+
+impl<P> State<P> {
     // mirror of `StateRegistry::insert::<T>` restricted to value states (used by `Loop::init`): the C01 contract
     // "insert writes the innermost scope" is abstracted as `with_inserted`.
     #[verifier::external_body]
